@@ -84,7 +84,7 @@ PROPS["C09"] = dict(
     rule="random object trees (depth <= 2; 11 kinds: Point, SimplePoint, Rect, LineString, Polygon, Feature, 5 collection kinds, with 0-4 or 60-70 children, empty children) whose leaves are constructed in contact with a common valid polygon; all ordered pairs; 4 geometry-index x 4 child-index configurations; per pair: 6 predicate answers + 8 algebraic-law flags (within=contains swapped, intersects symmetric, contains=>intersects, contains=>rect covers, intersects=>rects meet, self containment, Feature transparency, SimplePoint/Rect representation transparency) compared with the Coq model; answers compared with the composed point-set oracle when no polygon leaf is in boundary contact (where the C03 findings live). non-trivial: all; distinct = distinct case lines",
     trusted_base=OBJ_TB + ["executable oracle PairSpec.meets_x / covers_x at the leaves (completeness not proved)"],
     assumptions=["float64 exact on D", "Circle is outside this model (real-valued model, C13)"],
-    partial=["contains => rectangles meet is proved; contains => A's rectangle COVERS B's is checked as a law flag only; rect-as-polygon transparency, intersects symmetry and self containment lean on the unproved completeness of C02/C03 for polygon pairs: law flags"],
+    partial=["contains => A's rectangle covers B's is proved (CoversBoxes.v), hence also rectangles meet; rect-as-polygon transparency, intersects symmetry and self containment lean on the unproved completeness of C02/C03 for polygon pairs: law flags"],
 )
 PROPS["C10"] = dict(
     streams=["C10"], kernel_cases=150, timeout=1500, classify=classes.classify_c09,
